@@ -65,7 +65,7 @@ class MicroCGateway : public AbstractMessageIOGateway {
 public:
    enum { BUF = 8192 };
    UMessageGateway _gw; uint8 * _in; uint8 * _out;
-   MicroCGateway() : _in(new uint8[BUF]), _out(new uint8[BUF]) { memset(_in, 0, BUF); memset(_out, 0, BUF); UGGatewayInitialize(&_gw, _in, BUF, _out, BUF); }
+   explicit MicroCGateway(uint32 outBufSize = BUF) : _in(new uint8[BUF]), _out(new uint8[outBufSize]) { memset(_in, 0, BUF); memset(_out, 0, outBufSize); UGGatewayInitialize(&_gw, _in, BUF, _out, outBufSize); }   // (a small output buffer makes the buffer-compaction path of UGGetOutgoingMessage reachable)
    virtual ~MicroCGateway() { delete [] _in; delete [] _out; }
    // builds the UMessage in place in the gateway's output buffer through the public UM API, field by field
    virtual status_t AddOutgoingMessage(const MessageRef & m)
